@@ -54,6 +54,12 @@ func (l *Loaded) VerifyD(pkgShort string, keys []string, opts vc.VerifyOpts, run
 		all = append(all, ObResult{Name: key + "/contract-applies", ID: key + "/contract-applies#0", Kind: "contract-applies", Func: key, Status: "unsat", Backend: "gvc", Layer: "D"})
 		qs = append(qs, e.Queries()...)
 		obls = append(obls, e.Obls...)
+		if l.UsedContracts == nil {
+			l.UsedContracts = map[string]bool{}
+		}
+		for k := range e.UsedContracts {
+			l.UsedContracts[k] = true
+		}
 	}
 	{
 		rs := runner.SolveAll(qs)
